@@ -33,16 +33,18 @@ theorem walk_map (B : Bridge eqv norm hash f hash' S W) {m : OMap K V} (hg : Goo
     | some i =>
       simp only [walkE, walk, mh, mapEntry_key, mapEntry_hNext]
       rw [ih]
-      have key : ((match (m.heap i).key with | some k' => eqv k' (norm k) | none => false) = true) ↔
+      have key : keyEqv eqv (m.heap i).key (norm k) = true ↔
           (Option.map f (m.heap i).key = some (f (norm k))) := by
         cases hki : (m.heap i).key with
-        | none => simp
+        | none => simp [keyEqv]
         | some k' =>
           have := B.eqv_eq k' k (hg i k' hki) hk
-          simp only [this, Option.map_some, Option.some.injEq, decide_eq_true_eq]
+          simp only [keyEqv, this, Option.map_some, Option.some.injEq, decide_eq_true_eq]
       by_cases hc : Option.map f (m.heap i).key = some (f (norm k))
-      · rw [if_pos hc, if_pos (key.2 hc)]
-      · rw [if_neg hc, if_neg (fun h => hc (key.1 h))]
+      · have h1 := key.2 hc
+        simp [hc, h1]
+      · have h1 : ¬ (keyEqv eqv (m.heap i).key (norm k) = true) := fun h => hc (key.1 h)
+        simp [hc, h1]
 
 theorem lookup_map (B : Bridge eqv norm hash f hash' S W) {m : OMap K V} (hg : Good S m) {k : K} (hk : W k) :
     lookupE eqv norm hash m k = lookup id hash' (mapKeys f m) (f (norm k)) := by
@@ -150,16 +152,17 @@ theorem stepE_sim (B : Bridge eqv norm hash f hash' S W) {s : Sys K V} (hg : Goo
   | next j =>
     simp only [Sys.stepE, Sys.step, Op.mapKey, Sys.mapKeys]
     cases hj : s.iters[j]? with
-    | none => exact ⟨rfl, rfl, hg⟩
+    | none => refine ⟨?_, ?_, hg⟩ <;> first | rfl | trivial
     | some it =>
       simp only [next_map]
-      refine ⟨rfl, ?_, hg⟩
-      cases (next s.m it).2 <;> rfl
+      refine ⟨?_, ?_, hg⟩
+      · first | rfl | trivial
+      · cases (next s.m it).2 <;> rfl
   | close j =>
     simp only [Sys.stepE, Sys.step, Op.mapKey, Sys.mapKeys]
     cases hj : s.iters[j]? with
-    | none => exact ⟨rfl, rfl, hg⟩
-    | some it => exact ⟨rfl, trivial, hg⟩
+    | none => refine ⟨?_, ?_, hg⟩ <;> first | rfl | trivial
+    | some it => refine ⟨?_, ?_, hg⟩ <;> first | rfl | trivial
 
 theorem runE_sim (B : Bridge eqv norm hash f hash' S W) : ∀ (ops : List (Op K V)) (s : Sys K V), Good S s.m →
     (∀ o, o ∈ ops → o.keyOk W) →
